@@ -460,10 +460,12 @@ func init() {
 			if w.Thorough() {
 				outs = outsT
 			}
+			// output file names with more than one dot or a leading dot: the location is <name minus its LAST extension>/
+			outsDots := append(append([]string{}, outs...), "out.v2.svg", ".out.svg", "dir/a.b.svg")
 			w.Phase("boards<=1 x N34 x outputs x root-empty", func() {
 				for n := 0; n <= 1; n++ {
 					enumTrees(n, boardKinds, n34, func(t *btree) {
-						for _, o := range outs {
+						for _, o := range outsDots {
 							c34Eval(w, t, o, false)
 							c34Eval(w, t, o, true)
 						}
